@@ -15,6 +15,10 @@ from ..gen import c02_pairs as GEN
 from ..oracle import c02_sep as S
 from .. import monitor
 
+# monitors are self-sufficient (judge a call from its arguments and result): the repository's own tests run under them
+# as an extra workload in the thorough tier (vf/repotests.py)
+REPOTESTS = True
+
 RULE = ('case index -> cell kind (orthogonal / mildly tilted / tilted exactly to the LAMMPS limit / beyond it / '
         'crystal family / rotated triclinic / rotated orthogonal) x 8 periodicity settings x 8 call shapes '
         '(one-one, one-many, many-one, many-many, list/tuple, memory layouts, System index forms, displacement) '
